@@ -106,6 +106,13 @@ func (d *Discharger) solveOne(w *World, o *Obligation) {
 	record(r)
 	results = append(results, r)
 	decided := func(r solveResult) bool { return r.status == "unsat" || r.status == "sat" }
+	if o.Expect == "sat" {
+		// vacuity covers are cross-checked on the second z3: a hypothesis set that one solver satisfies and the
+		// other refutes means inconsistent axioms or a solver defect, and is fatal (split)
+		r2 := runSolver(solvers[1], sc.Text, file, tmo)
+		record(r2)
+		results = append(results, r2)
+	}
 	if (!decided(r) || d.thorough) && o.Expect != "sat" {
 		var wg sync.WaitGroup
 		rest := make([]solveResult, len(solvers)-1)
@@ -162,6 +169,9 @@ func (d *Discharger) solveOne(w *World, o *Obligation) {
 		o.Status = "discharged"
 	case o.Expect == "unsat" && final.status == "sat":
 		o.Status = "failed"
+	case o.Expect == "sat" && sawSat && sawUnsat:
+		o.Status = "split"
+		o.Note = "solvers disagree on the satisfiability of the hypotheses (inconsistent axioms or solver defect)"
 	case o.Expect == "sat" && final.status == "sat":
 		o.Status = "covered"
 	case o.Expect == "sat" && final.status == "unsat":
